@@ -163,15 +163,23 @@ Proof.
   intros fuel s it Hq He Hc.
   assert (Hm : memb (i_id it) (cancelled s) = true).
   { unfold memb. apply existsb_exists. exists (i_id it). split; [assumption | apply Nat.eqb_refl]. }
-  destruct fuel as [|fuel]; simpl; rewrite He, Hq; simpl.
-  - destruct (t <? i_due it).
-    + rewrite ticks_finish_adv. repeat split; intros; discriminate.
-    + simpl. repeat split; intros; try reflexivity; discriminate.
-  - destruct (t <? i_due it).
-    + rewrite ticks_finish_adv. repeat split; intros; discriminate.
-    + unfold run_item. rewrite Hm. simpl.
-      destruct fuel; simpl; rewrite He; simpl; rewrite ticks_finish_adv; simpl;
-        repeat split; intros; discriminate.
+  assert (Hfin : forall x, ticks_of pid (log x) = ticks_of pid (log s) ->
+            ticks_of pid (log (ostate (finish_adv x t))) = ticks_of pid (log s) /\
+            (forall s', finish_adv x t = OutOfFuel s' -> fuel = 0%nat) /\
+            (forall e s', finish_adv x t <> Raised e s')).
+  { intros x Hx. rewrite ticks_finish_adv. repeat split; auto; unfold finish_adv; intros; discriminate. }
+  destruct fuel as [|fuel]; cbn [advance_loop]; rewrite He, Hq; cbn [negb].
+  - destruct (t <? i_due it); [apply Hfin; reflexivity|].
+    cbn [ostate]. repeat split; intros; try reflexivity; discriminate.
+  - destruct (t <? i_due it); [apply Hfin; reflexivity|].
+    unfold run_item. rewrite Hm. cbn [negb].
+    set (s1 := add_log _ _).
+    assert (H1 : ticks_of pid (log s1) = ticks_of pid (log s)) by reflexivity.
+    assert (Hq1 : queue s1 = []) by reflexivity.
+    assert (He1 : enabled s1 = true) by exact He.
+    destruct (Hfin s1 H1) as (A & B & C).
+    destruct fuel; cbn [advance_loop]; rewrite He1, Hq1; cbn [negb]; repeat split; auto;
+      unfold finish_adv; intros; discriminate.
 Qed.
 
 Lemma solo_advance f p pid t : 0 <= p -> forall fuel s st due,
@@ -205,16 +213,22 @@ Proof.
         set (s3 := set_pers s2 (set_nth pid (PInfo p f false (next_id s2)) (pers s2))).
         set (s4 := enqueue s3 (clock s3 + p) (PPer pid st')).
         assert (Hnid : next_id s2 = next_id s).
-        { unfold s2. clear. generalize (add_log s1 (ETick pid st (clock s1))).
-          induction ns as [|n tl IHn]; intro x; simpl; [|rewrite IHn]; reflexivity. }
+        { unfold s2. clear. assert (G : forall x, next_id (add_notes x ns) = next_id x).
+          { induction ns as [|n tl IHn]; intro x; simpl; [|rewrite IHn]; reflexivity. }
+          rewrite G. reflexivity. }
         assert (Hcan2 : cancelled s2 = cancelled s).
         { unfold s2. clear. assert (G : forall x, cancelled (add_notes x ns) = cancelled x).
           { induction ns as [|n tl IHn]; intro x; simpl; [|rewrite IHn]; reflexivity. }
           rewrite G. reflexivity. }
+        fold s2 in F1, F2, F3, F6.
+        assert (Q2 : queue s2 = []) by (rewrite F2; reflexivity).
+        assert (C2 : clock s2 = due) by (rewrite F1; reflexivity).
+        assert (E2 : enabled s2 = true) by (rewrite F3; exact He).
+        assert (P2 : pers s2 = pers s) by (rewrite F6; reflexivity).
         assert (Hsolo : solo s4 pid p f st' (due + p)).
         { exists (Item (clock s3 + p) (count s3) (next_id s3) (npops s3) (clock s3) (PPer pid st')).
-          unfold s4, s3; simpl. fold s2. rewrite F2, F1, F3, Hnid, Hcan2. simpl. repeat split; auto; try lia.
-          - rewrite F6. eapply nth_error_set_nth. simpl. exact Hn.
+          unfold s4, s3; simpl. rewrite Q2, C2, E2, P2, Hnid, Hcan2. simpl. repeat split; auto; try lia.
+          - eapply nth_error_set_nth. exact Hn.
           - eapply Forall_impl; [|exact Hcan]. simpl. intros; lia.
           - intro Hin. rewrite Forall_forall in Hcan. apply Hcan in Hin. lia. }
         destruct (IH s4 st' (due + p) Hsolo) as [T O]. fold s2 s3 s4. split.
@@ -228,9 +242,10 @@ Proof.
         assert (Hq4 : exists it', queue s4 = [it'] /\ enabled s4 = true /\ In (i_id it') (cancelled s4)).
         { destruct (dispose_per_fields (add_notes (add_log s1 (ETick pid st (clock s1))) ns) pid) as (D1 & D2 & D3 & D4 & D5).
           destruct (add_notes_fields ns (add_log s1 (ETick pid st (clock s1)))) as (F1 & F2 & F3 & F4 & F5).
-          eexists. unfold s4, cancel_id. simpl. rewrite Nat.ltb_lt. 
-          assert (X : (next_id s2 <? S (next_id s2))%nat = true) by (apply Nat.ltb_lt; lia). rewrite X. simpl.
-          fold s2. unfold s2 at 2. rewrite D2, F2. simpl. unfold s2 at 3. rewrite D3, F3. simpl.
+          assert (QQ : queue s2 = []) by (unfold s2; rewrite D2, F2; reflexivity).
+          assert (EE : enabled s2 = true) by (unfold s2; rewrite D3, F3; exact He).
+          assert (X : (next_id s2 <? S (next_id s2))%nat = true) by (apply Nat.ltb_lt; lia).
+          eexists. unfold s4, cancel_id. simpl. rewrite X. simpl. rewrite QQ, EE. simpl.
           repeat split; auto. }
         destruct Hq4 as (it' & Q1 & Q2 & Q3).
         destruct (residual_advance pid t fuel s4 it' Q1 Q2 Q3) as (R1 & R2 & R3).
@@ -248,9 +263,10 @@ Proof.
            assert (Hq4 : exists it', queue s4 = [it'] /\ enabled s4 = true /\ In (i_id it') (cancelled s4)).
            { destruct (dispose_per_fields (add_log (add_log (add_notes (add_log s1 (ETick pid st (clock s1))) ns) (ERaise e)) (EHandler e)) pid) as (D1 & D2 & D3 & D4 & D5).
              destruct (add_notes_fields ns (add_log s1 (ETick pid st (clock s1)))) as (F1 & F2 & F3 & F4 & F5).
-             eexists. unfold s4, cancel_id. simpl.
-             assert (X : (next_id s2 <? S (next_id s2))%nat = true) by (apply Nat.ltb_lt; lia). rewrite X. simpl.
-             fold s2. unfold s2 at 2. rewrite D2. simpl. rewrite F2. simpl. unfold s2 at 3. rewrite D3. simpl. rewrite F3. simpl.
+             assert (QQ : queue s2 = []) by (unfold s2; rewrite D2; cbn [queue add_log]; rewrite F2; reflexivity).
+             assert (EE : enabled s2 = true) by (unfold s2; rewrite D3; cbn [enabled add_log]; rewrite F3; exact He).
+             assert (X : (next_id s2 <? S (next_id s2))%nat = true) by (apply Nat.ltb_lt; lia).
+             eexists. unfold s4, cancel_id. simpl. rewrite X. simpl. rewrite QQ, EE. simpl.
              repeat split; auto. }
            destruct Hq4 as (it' & Q1 & Q2 & Q3).
            destruct (residual_advance pid t fuel s4 it' Q1 Q2 Q3) as (R1 & R2 & R3).
@@ -260,4 +276,84 @@ Proof.
            ++ intros s' E. apply R2 in E. subst fuel. reflexivity.
         -- cbn [ostate]. split; [|intros; discriminate].
            rewrite ticks_dispose_per. simpl. rewrite Htk. reflexivity.
+Qed.
+
+Lemma solo_spec_length f p : 0 < p -> forall n due st t,
+  (length (solo_spec f p n due st t) <= Z.to_nat ((t - due) / p + 1))%nat.
+Proof.
+  intro Hp. induction n as [|n IH]; intros due st t; cbn [solo_spec length]; [lia|].
+  destruct (t <? due) eqn:Et; cbn [length]; [lia|]. apply Z.ltb_ge in Et.
+  assert (E : (t - due) / p = (t - (due + p)) / p + 1).
+  { replace (t - due) with ((t - (due + p)) + 1 * p) by lia. rewrite Z.div_add by lia. reflexivity. }
+  assert (0 <= (t - due) / p) by (apply Z.div_pos; lia).
+  destruct (plookup f st) as [ns st'|ns|ns e|ns e v]; cbn [length]; try lia.
+  specialize (IH (due + p) st' t). rewrite E. remember ((t - (due + p)) / p) as q. lia.
+Qed.
+
+(* the history: schedule_periodic(p, f, st0) on a fresh scheduler at clock c0, then advance_to(t) *)
+Definition solo_history (p : Z) (f : ptable) (st0 t : Z) : list tcmd :=
+  [TDo (SPeriodic p f st0); TAdvTo t].
+
+Theorem periodic_solo c fuel c0 p f st0 t : 0 <= p -> c0 < t ->
+  let r := run c fuel (init c0) (solo_history p f st0 t) in
+  rev (ticks_of 0 (log (state_of r))) = solo_spec f p fuel (c0 + p) st0 t /\
+  (match r with ROutOfFuel _ => length (solo_spec f p fuel (c0 + p) st0 t) = fuel | RDeadlock _ => False | RDone _ => True end).
+Proof.
+  intros Hp Hlt. unfold solo_history. cbn [run step_t exec_cmd of_bres].
+  set (s1 := add_log _ _).
+  assert (Hc1 : clock s1 = c0) by reflexivity.
+  unfold advance_to. rewrite Hc1.
+  assert (E1 : t <? c0 = false) by (apply Z.ltb_ge; lia). assert (E2 : c0 =? t = false) by (apply Z.eqb_neq; lia).
+  rewrite E1, E2. change (enabled s1) with false. cbn [orb].
+  assert (Hsolo : solo (set_enabled s1 true) 0 p f st0 (c0 + p)).
+  { eexists. unfold s1; simpl. repeat split; auto; try lia; try constructor. }
+  destruct (solo_advance f p 0 t Hp fuel (set_enabled s1 true) st0 (c0 + p) Hsolo) as [T O].
+  assert (T0 : ticks_of 0 (log (set_enabled s1 true)) = []) by reflexivity.
+  rewrite T0, app_nil_r in T.
+  destruct (advance_loop fuel (set_enabled s1 true) t) as [s'|e s'|s'|s'] eqn:Eo; cbn [run state_of]; simpl in T.
+  - split; [|exact I]. simpl. rewrite T, rev_involutive. reflexivity.
+  - split; [|exact I]. simpl. rewrite T, rev_involutive. reflexivity.
+  - exfalso. clear - Eo. revert Eo. generalize (set_enabled s1 true). clear.
+    induction fuel as [|fuel IH]; intros s; simpl.
+    + destruct (negb (enabled s)); [unfold finish_adv; discriminate|].
+      destruct (queue s); [unfold finish_adv; discriminate|]. destruct (t <? i_due i); [unfold finish_adv|]; discriminate.
+    + destruct (negb (enabled s)); [unfold finish_adv; discriminate|].
+      destruct (queue s); [unfold finish_adv; discriminate|]. destruct (t <? i_due i); [unfold finish_adv; discriminate|].
+      destruct (run_item _ _ _ _ _); [apply IH | discriminate].
+  - split; [rewrite T, rev_involutive; reflexivity | eapply O; reflexivity].
+Qed.
+
+(* with enough fuel (one unit per call that can be due by t) the run completes *)
+Theorem periodic_solo_terminates c fuel c0 p f st0 t : 0 < p -> c0 < t ->
+  (Z.to_nat ((t - c0) / p) < fuel)%nat ->
+  exists s', run c fuel (init c0) (solo_history p f st0 t) = RDone s'.
+Proof.
+  intros Hp Hlt Hf. destruct (periodic_solo c fuel c0 p f st0 t) as [_ H]; [lia | assumption |].
+  destruct (run c fuel (init c0) (solo_history p f st0 t)) as [s'|s'|s']; [eexists; reflexivity | destruct H|].
+  exfalso. pose proof (solo_spec_length f p Hp fuel (c0 + p) st0 t) as L. rewrite H in L.
+  assert (E : (t - c0) / p = (t - (c0 + p)) / p + 1).
+  { replace (t - c0) with ((t - (c0 + p)) + 1 * p) by lia. rewrite Z.div_add by lia. reflexivity. }
+  rewrite E in Hf. lia.
+Qed.
+
+(* whenever a call does not return a next state (it raised, with or without a
+   CatchScheduler handler, or disposed the subscription itself) the subscription
+   is disposed during that call; by [no_tick_after_dispose_run] the action is
+   never called again *)
+Theorem periodic_stop_disposes s pid st pi :
+  nth_error (pers s) pid = Some pi -> p_disposed pi = false ->
+  match plookup (p_fn pi) st with PNext _ _ => False | _ => True end ->
+  In (EPDispose pid) (log (bstate (invoke s (PPer pid st)))).
+Proof.
+  intros Hn Hd Hr. simpl. rewrite Hn, Hd.
+  assert (Hn' : forall ns, nth_error (pers (add_notes (add_log s (ETick pid st (clock s))) ns)) pid = Some pi).
+  { intro ns. destruct (add_notes_pers ns (add_log s (ETick pid st (clock s)))) as [-> _]. exact Hn. }
+  assert (HC : forall x r, In (EPDispose pid) (log x) -> In (EPDispose pid) (log (cancel_id x r))).
+  { intros x r H. unfold cancel_id. destruct (r <? next_id x)%nat; simpl; auto. }
+  destruct (plookup (p_fn pi) st) as [ns st'|ns|ns e|ns e v]; simpl; [destruct Hr| | |].
+  - apply HC. simpl. eapply dispose_per_logs; [apply Hn' | exact Hd].
+  - eapply dispose_per_logs; [|exact Hd]. simpl. apply Hn'.
+  - destruct v; simpl.
+    + apply HC. simpl. eapply dispose_per_logs; [|exact Hd]. simpl. apply Hn'.
+    + eapply dispose_per_logs; [|exact Hd]. simpl. apply Hn'.
 Qed.
